@@ -116,7 +116,7 @@ func (v *verdict) timingf(f string, a ...interface{}) {
 
 // decide applies the policy: hard violations fail at once; a timing violation fails only when the
 // canary was quiet and the same case fails `refails` more times in a row.
-func decide(t *rapid.T, st *stats.Collector, desc string, first verdict, overloaded bool, rerun func() (verdict, bool)) (conclusive bool) {
+func decide(t *rapid.T, st *stats.Collector, key, desc string, first verdict, overloaded bool, rerun func() (verdict, bool)) (conclusive bool) {
 	if len(first.hard) > 0 {
 		t.Fatalf("C30 violation:\n  %s\n  case: %s", strings.Join(first.hard, "\n  "), desc)
 	}
@@ -126,6 +126,11 @@ func decide(t *rapid.T, st *stats.Collector, desc string, first verdict, overloa
 	if overloaded {
 		st.Inconclusive()
 		return false
+	}
+	if confirmed[key] {
+		// the identical case already failed refails+1 times in a row in this process (rapid re-runs
+		// the minimal case to print it): no need to spend the re-runs again
+		t.Fatalf("C30 deadline violation (this case failed %d times in a row before, canary quiet):\n  %s\n  case: %s", refails+1, strings.Join(first.timing, "\n  "), desc)
 	}
 	last := first
 	for i := 0; i < refails; i++ {
@@ -139,9 +144,13 @@ func decide(t *rapid.T, st *stats.Collector, desc string, first verdict, overloa
 		}
 		last = v
 	}
+	confirmed[key] = true
 	t.Fatalf("C30 deadline violation (failed %d times in a row, canary quiet):\n  %s\n  case: %s", refails+1, strings.Join(last.timing, "\n  "), desc)
 	return false
 }
+
+// cases whose deadline violation was confirmed by the full re-fail policy in this process
+var confirmed = map[string]bool{}
 
 // acquireWD calls Acquire on its own goroutine and gives up waiting after `limit`.
 func acquireWD(sem *datasemaphore.DataSemaphore, w metric, timeout, limit time.Duration) (res bool, elapsed time.Duration, hung bool) {
@@ -408,7 +417,7 @@ func TestC30Sequential(t *testing.T) {
 		c := genSeq(t)
 		v, info, overloaded := runSeq(c)
 		desc := func() string { return c.String() + "\n  executed: " + strings.Join(info.trace, " ") }
-		if !decide(t, stSeq, desc(), v, overloaded, func() (verdict, bool) {
+		if !decide(t, stSeq, c.String(), desc(), v, overloaded, func() (verdict, bool) {
 			v2, _, ov := runSeq(c)
 			return v2, ov
 		}) {
@@ -825,7 +834,7 @@ var stTimed = stats.New("blocking")
 func timedProp(t *rapid.T) {
 	s := genScenario(t)
 	v, info, overloaded := runScenario(s)
-	if !decide(t, stTimed, s.String(), v, overloaded, func() (verdict, bool) {
+	if !decide(t, stTimed, s.String(), s.String(), v, overloaded, func() (verdict, bool) {
 		v2, _, ov := runScenario(s)
 		return v2, ov
 	}) {
